@@ -27,7 +27,12 @@ def gen(rng, tier):
             continue
         words = [[rng.randrange(3) for _ in range(rng.randint(0, 7))] for _ in range(24)]
         cases.append({'r': t, 'ws': words})
-    return cases
+    # symbols named like the constants 0 / 1 or like the epsilon notation: same trees and words, relabelled
+    out = []
+    for i, c in enumerate(cases):
+        codes = G.CODE_SETS[i % len(G.CODE_SETS)]
+        out.append({'r': G.relabel_re(c['r'], codes), 'ws': G.relabel_words(c['ws'], codes)})
+    return out
 
 
 def observe(c):
